@@ -332,7 +332,7 @@ def _check(prog, pdf, part, ordered, idx_ok, stages, observe=None):
                 except Exception as ex:  # noqa: BLE001  comparison itself failed: treat as a mismatch with the reason
                     m = ("uncomparable", "%s: %s" % (type(ex).__name__, ex))
                 if m is not None and _aligned_by_index_shuffle(ddf, val, expected):
-                    # Calibration (after dask repair aabdcf7): an elementwise operation between two collections whose
+                    # Calibration (after dask repair e783733): an elementwise operation between two collections whose
                     # co-alignment dask cannot prove and whose divisions are unknown is aligned by a shuffle on the index,
                     # which promises the right rows per index label but no row order.  With a unique index the result is
                     # therefore judged after sorting both sides by index.
@@ -354,14 +354,14 @@ def _check(prog, pdf, part, ordered, idx_ok, stages, observe=None):
                     if observe is not None:
                         observe("index_shuffle_aligned", True)
                 if m is not None and _label_alignment_on_duplicate_labels(prog, coll, val, expected):
-                    # Calibration (after dask repair aabdcf7): operands that dask cannot prove co-aligned and whose divisions
+                    # Calibration (after dask repair e783733): operands that dask cannot prove co-aligned and whose divisions
                     # are unknown are aligned BY LABEL through an index shuffle.  pandas aligns by label too, except that it
                     # short-cuts to positional pairing when the two indexes are the identical object / equal - which dask
                     # cannot see.  With duplicated labels the two notions differ (label alignment multiplies the rows of a
                     # label), so such programs are outside what the statement can demand of the optimizer.
                     return ("reject", "label alignment of operands with duplicated row labels that are not provably co-aligned")
                 if m is not None and not idx_ok and _aligns_on_labels_after_merge(prog):
-                    # Calibration (after dask repair aabdcf7): the row labels of a dask merge result are partition-local
+                    # Calibration (after dask repair e783733): the row labels of a dask merge result are partition-local
                     # (documented divergence from pandas; the generator marks them "not comparable").  An elementwise
                     # operation that has to ALIGN two collections derived from such a result aligns on those labels, so
                     # its outcome is not defined by pandas' labels: outside the domain.
